@@ -32,10 +32,28 @@ def step_elements(net, via="elements", init_conditions=None, engine=None, rng=No
     els = list(net.elements)
     if via == "elements_shuffled" and rng is not None:
         rng.shuffle(els)
+    from vf.desc import ORDER, callform
+
+    def kind_of(el):
+        n = type(el).__mro__
+        names = [c.__name__ for c in n]
+        if "LinkWithVsl" in names:
+            return "LinkWithVsl"
+        if "Link" in names:
+            return "Link"
+        if "Origin" in names:
+            return "Origin"
+        return "Destination"
+
     for el in els:
         if only_init is not None and not any(el is x for x in only_init):
             continue
-        el.init_vars(init_conditions=ic.get(el), engine=engine, **init)
+        k_ = kind_of(el)
+        vals = {"init_conditions": ic.get(el), "engine": engine}
+        rest = dict(init)
+        for n_ in ORDER[k_ + ".init_vars"][2:]:
+            vals[n_] = rest.pop(n_)
+        callform(el.init_vars, ORDER[k_ + ".init_vars"], vals, 0, extra=rest)
     todo = [("o", o) for o in net.origins] + [("l", l) for _, _, l in net.links]
     if via == "elements_links_first":
         todo = [t for t in todo if t[0] == "l"] + [t for t in todo if t[0] == "o"]
@@ -43,9 +61,40 @@ def step_elements(net, via="elements", init_conditions=None, engine=None, rng=No
         rng.shuffle(todo)
     for k, el in todo:
         if k == "o":
-            el.step(net=net, engine=engine, positive_next_queue=pn_queue, **kw)
+            order = ORDER["Origin.step"]
+            vals = {"net": net}
+            if "T" in kw:
+                vals["T"] = kw["T"]
+                vals["engine"] = engine
+                vals["positive_next_queue"] = pn_queue
+                extra = {a: b for a, b in kw.items() if a != "T"}
+            else:
+                extra = dict(kw, engine=engine, positive_next_queue=pn_queue)
+            callform(el.step, order, vals, 0, extra=extra)
         else:
-            el.step(net=net, engine=engine, positive_next_speed=pn_speed, positive_next_density=pn_density, **kw)
+            order = ORDER["Link.step"]
+            vals = {"net": net}
+            extra = dict(kw)
+            chain_ = True
+            for n_ in order[1:]:
+                if n_ == "engine":
+                    v_ = engine
+                elif n_ == "positive_next_speed":
+                    v_ = pn_speed
+                elif n_ == "positive_next_density":
+                    v_ = pn_density
+                elif n_ in ("delta", "phi"):
+                    v_ = extra.pop(n_, None)
+                elif n_ in extra:
+                    v_ = extra.pop(n_)
+                else:
+                    chain_ = False  # a required model parameter is missing: everything else by keyword
+                    break
+                vals[n_] = v_
+            if not chain_:
+                vals = {"net": net}
+                extra = dict(kw, engine=engine, positive_next_speed=pn_speed, positive_next_density=pn_density)
+            callform(el.step, order, vals, 0, extra=extra)
 
 
 def do_step(net, via="net", rng=None, **kw):
@@ -53,7 +102,23 @@ def do_step(net, via="net", rng=None, **kw):
     StepMonitor observes both the same way."""
     if via == "net":
         kw.pop("only_init", None)
-        return net.step(**kw)
+        from vf.desc import ORDER, callform
+
+        from vf.desc import FORMS
+
+        order = ORDER["Network.step"]
+        vals = {}
+        if FORMS["rng"] is not None and FORMS["rng"].random() < 0.3:
+            for n_ in order[2:]:
+                kw.setdefault(n_, False)  # the options written out explicitly
+        if "init_conditions" in kw or "engine" in kw:
+            vals = {"init_conditions": kw.pop("init_conditions", None), "engine": kw.pop("engine", None)}
+            for n_ in order[2:]:
+                if n_ in kw:
+                    vals[n_] = kw.pop(n_)
+                else:
+                    break
+        return callform(net.step, order, vals, 0, extra=kw)
     mon = getattr(type(net).step, "_vf_monitor", None)
     run = lambda: step_elements(net, via, rng=rng, **kw)  # noqa: E731
     if mon is not None and mon.enabled:
@@ -82,6 +147,26 @@ def integerise(vals):
                 e[a] = v if math.isinf(v) else float(round(v))
         out[k] = e
     return out
+
+
+def as_user_mapping(ic):
+    """The init_conditions mapping as a user may hold it: a dict, a defaultdict(dict) filled element by
+    element, an OrderedDict, a UserDict (chosen by the call-form generator; plain dict when it is off)."""
+    from vf.desc import FORMS
+
+    r = FORMS["rng"]
+    if r is None or r.random() < 0.7:
+        return ic
+    import collections
+
+    k = r.random()
+    if k < 0.5:
+        out = collections.defaultdict(dict)
+        out.update(ic)
+        return out
+    if k < 0.8:
+        return collections.OrderedDict(ic)
+    return collections.UserDict(ic)
 
 
 def np_init(built, vals, scalar_shape="vec1", readonly=False, int_dtype=False, shuffle_keys=None):
@@ -121,7 +206,7 @@ def np_init(built, vals, scalar_shape="vec1", readonly=False, int_dtype=False, s
         ks = list(ic)
         shuffle_keys.shuffle(ks)
         ic = {k_: ic[k_] for k_ in ks}
-    return ic
+    return as_user_mapping(ic)
 
 
 def read_next(built):
@@ -165,7 +250,7 @@ def sym_init(M, built, symtype, symvals=None, vals=None, prefix="", shuffle_keys
                 shuffle_keys.shuffle(ks)
                 d = {k_: d[k_] for k_ in ks}
             ic[built.el(eid)] = d
-    return ic, syms
+    return as_user_mapping(ic), syms
 
 
 def register_vals(symvals, syms, vals, prefix=""):
